@@ -259,6 +259,25 @@ static void doParse(const std::string& kind, const std::string& line, int opInde
   }
 }
 
+// What an application can read off a ZonedDateTime it has kept: the printed form (date, time, offset, zone name), the
+// fields, and - where the instant is representable - the epoch seconds and the same instant in UTC.
+static std::string reprKept(const ZonedDateTime& z) {
+  StrPrint sp;
+  z.printTo(sp);
+  std::string r = sp.c_str();
+  if (z.isError()) return r + "|error";
+  r += fmt("|%d-%d-%d %d:%d:%d %d", (int)z.year(), (int)z.month(), (int)z.day(), (int)z.hour(), (int)z.minute(),
+      (int)z.second(), (int)z.timeOffset().toMinutes());
+  if (z.year() >= 1932 && z.year() <= 2067) {
+    r += fmt("|%ld", (long)z.toEpochSeconds());
+    StrPrint sp2;
+    z.convertToTimeZone(TimeZone::forUtc()).printTo(sp2);
+    r += "|";
+    r += sp2.c_str();
+  }
+  return r;
+}
+
 // --- poison-filled storage. Heap blocks of exactly the object's size, so that under ASan an access
 // past the end of a processor / manager hits a redzone, filled with a seed-drawn byte before
 // placement construction, so that nothing depends on what the allocator left behind.
@@ -372,12 +391,16 @@ struct Client {
   TimeZone tz;
   int proc = -1;
   bool restored = false;   // came out of createForTimeZoneData()
+  // a ZonedDateTime the application keeps (it holds its TimeZone by value) and looks at again later
+  bool hasKept = false;
+  ZonedDateTime kept;
+  std::string keptRepr;
 };
 
 struct SavedForm {
   bool present = false;
   bool torn = false;   // a stored byte was flipped (fault `torn_store_byte`): the catalogue no longer knows the content
-  uint8_t bytes[5];
+  uint8_t bytes[sizeof(TimeZoneData)];   // the object's bytes, as EEPROM.put() / CrcEeprom would store them
   Desc d;   // what the simulator knows was saved
 };
 
@@ -851,19 +874,20 @@ void TzDevice::exec(const std::vector<std::string>& t, int opIndex, Verdict& v, 
       long z = tokInt(t, 3, 0);
       const void* want = shippedZone(ext, z);
       if (!m.base || !want) return;
-      TimeZoneData data(zoneIdOf(ext, want));
+      const uint32_t dataZoneId = zoneIdOf(ext, want);
+      TimeZoneData data(dataZoneId);
       c.tz = m.base->createForTimeZoneData(data);
-      const void* zi = m.findById(data.zoneId);
+      const void* zi = m.findById(dataZoneId);
       if (!zi || c.tz.isError()) { c.d.kind = K_ERROR; if (!c.tz.isError()) return; }
       else if (c.tz.getType() != (ext ? TimeZone::kTypeExtendedManaged : TimeZone::kTypeBasicManaged)
-          || c.tz.getZoneId() != data.zoneId) {
+          || c.tz.getZoneId() != dataZoneId) {
         // the restore path handed back something other than the zone asked for: that is C16's subject (the tz-restore
         // profile reports it); here the client is simply not created
         if (opts.armC16) v.fail("c16-create", fmt("createForTimeZoneData for zone id %lu present in the registry returned type %d id %lu",
-            (unsigned long)data.zoneId, (int)c.tz.getType(), (unsigned long)c.tz.getZoneId()), opIndex);
+            (unsigned long)dataZoneId, (int)c.tz.getType(), (unsigned long)c.tz.getZoneId()), opIndex);
         return;
       }
-      else { c.d.kind = ext ? K_XMGR : K_BMGR; c.d.zi = zi; c.d.zoneId = data.zoneId; c.d.zone = (int)z; c.restored = true; }
+      else { c.d.kind = ext ? K_XMGR : K_BMGR; c.d.zi = zi; c.d.zoneId = dataZoneId; c.d.zone = (int)z; c.restored = true; }
     } else if (how == "bname" || how == "xname") {
       // Creation by NAME, the way a device does it for a zone typed at its console: the name arrives in the ONE line
       // buffer the device has (overwritten by the next line), or in a heap block of exactly its size that is freed
@@ -951,6 +975,26 @@ void TzDevice::exec(const std::vector<std::string>& t, int opIndex, Verdict& v, 
     q.e = c ? c->getNow() : LocalDate::kInvalidEpochSeconds;
     cov.count("probe.query_at_clock_now");
     doQuery((int)s, q, opIndex, v, cov, bm);
+  } else if (op == "KEEP") {   // KEEP <slot> <epoch>: the application keeps a ZonedDateTime of this client's zone
+    long s = tokInt(t, 1, -1);
+    if (s < 0 || s >= kMaxClients || t.size() < 3 || clients[s].d.kind == K_EMPTY) return;
+    int64_t e = tokInt(t, 2, 0);
+    if (e < epochOfYearStart(1999) || e >= epochOfYearStart(2051)) return;   // kept values are ordinary ones
+    Client& c = clients[s];
+    c.kept = ZonedDateTime::forEpochSeconds((acetime_t)e, c.tz);
+    c.hasKept = true;
+    c.keptRepr = reprKept(c.kept);
+    cov.count("probe.zdt_kept");
+  } else if (op == "USE") {    // USE <slot>: ... and looks at it again after whatever happened in between
+    long s = tokInt(t, 1, -1);
+    if (s < 0 || s >= kMaxClients || !clients[s].hasKept || clients[s].d.kind == K_EMPTY) return;
+    Client& c = clients[s];
+    std::string now = reprKept(c.kept);
+    cov.count("probe.zdt_kept_used");
+    if (opts.armC08 && now != c.keptRepr) {
+      v.fail("c08-history-kept", fmt("a ZonedDateTime kept by the application (client %d, %s %s) read \"%s\" when it was made and reads "
+          "\"%s\" now, after other queries", (int)s, kindName(c.d.kind), zoneName(c.d.kind, c.d.zi), c.keptRepr.c_str(), now.c_str()), opIndex);
+    }
   } else if (op == "MANSET") { // MANSET <slot> std|dst <minutes>
     long s = tokInt(t, 1, -1);
     if (s < 0 || s >= kMaxClients || t.size() < 4 || clients[s].d.kind == K_EMPTY) return;
@@ -965,19 +1009,16 @@ void TzDevice::exec(const std::vector<std::string>& t, int opIndex, Verdict& v, 
     TimeZoneData d = clients[s].tz.toTimeZoneData();
     SavedForm& f = store[k];
     f.present = true; f.torn = false; f.d = clients[s].d;
-    f.bytes[0] = d.type;       // written field by field, little endian, like the example apps' EEPROM code
-    if (d.type == TimeZoneData::kTypeManual) {
-      f.bytes[1] = (uint8_t)(d.stdOffsetMinutes & 0xff); f.bytes[2] = (uint8_t)((d.stdOffsetMinutes >> 8) & 0xff);
-      f.bytes[3] = (uint8_t)(d.dstOffsetMinutes & 0xff); f.bytes[4] = (uint8_t)((d.dstOffsetMinutes >> 8) & 0xff);
-    } else {
-      uint32_t id = d.type == TimeZoneData::kTypeZoneId ? d.zoneId : 0;
-      f.bytes[1] = id & 0xff; f.bytes[2] = (id >> 8) & 0xff; f.bytes[3] = (id >> 16) & 0xff; f.bytes[4] = (id >> 24) & 0xff;
-    }
+    // stored as the object's bytes (what EEPROM.put() does): the harness reads no member of TimeZoneData, so that a
+    // re-layout of the serialisable form that keeps the API is judged by what it restores, not by whether this compiles
+    memset(f.bytes, 0, sizeof f.bytes);
+    memcpy(f.bytes, &d, sizeof d);
     cov.count("c16.saves");
   } else if (op == "TEAR") {   // TEAR <store> <pos 0..4> <value>: one stored byte is overwritten (power loss mid-write, bit rot)
     long k = tokInt(t, 1, -1), pos = tokInt(t, 2, 0);
     if (k < 0 || k >= kMaxStore || !store[k].present || pos < 0 || pos > 4) return;
-    store[k].bytes[pos] = (uint8_t)tokInt(t, 3, 0);
+    // position 0: the first byte (the type tag); 1..4: the last four bytes (the payload)
+    store[k].bytes[pos == 0 ? 0 : sizeof(TimeZoneData) - 5 + pos] = (uint8_t)tokInt(t, 3, 0);
     store[k].torn = true;
     cov.count("fault.torn_store_byte");
   } else if (op == "PARSE") {  // PARSE <ld|lt|ldt|odt|zdt|off> <hex of the line>
@@ -995,13 +1036,7 @@ void TzDevice::exec(const std::vector<std::string>& t, int opIndex, Verdict& v, 
     if (!m.base) return;
     const SavedForm& f = store[k];
     TimeZoneData d;
-    d.type = f.bytes[0];
-    if (d.type == TimeZoneData::kTypeManual) {
-      d.stdOffsetMinutes = (int16_t)(f.bytes[1] | (f.bytes[2] << 8));
-      d.dstOffsetMinutes = (int16_t)(f.bytes[3] | (f.bytes[4] << 8));
-    } else {
-      d.zoneId = (uint32_t)f.bytes[1] | ((uint32_t)f.bytes[2] << 8) | ((uint32_t)f.bytes[3] << 16) | ((uint32_t)f.bytes[4] << 24);
-    }
+    memcpy(&d, f.bytes, sizeof d);
     TimeZone tz = m.base->createForTimeZoneData(d);
     Client c; c.tz = tz;
     cov.count("c16.restores");
@@ -1656,6 +1691,10 @@ struct Gen {
     int wTot = mix.wQuery + mix.wRepeat + mix.wSetup + mix.wSave + mix.wRestore + mix.wReboot + mix.wManset + mix.wClock;
     for (int i = 0; i < n; i++) {
       int w = (int)rng.below(wTot);
+      if (!mix.restore || mix.extremes) {
+        if (rng.chance(1, 16)) line(fmt("KEEP %d %lld", liveClient(), (long long)rng.range(epochOfYearStart(2000), epochOfYearStart(2050) - 1)));
+        else if (rng.chance(1, 10)) line(fmt("USE %d", (int)rng.below(kMaxClients)));
+      }
       if (w < mix.wQuery && !recent.empty() && rng.chance(1, 7)) {
         // ask an EARLIER query of this run again (identical argument), after whatever happened in between:
         // a memo keyed on the argument, or state that survives a refill by another entry point, only
